@@ -87,12 +87,14 @@ PROPS = {
    'technique': 'symbolic execution of the statistics members on symbolic adjustments; each documented relation (dof, m0, standard deviations, residual cofactors, ellipse eigen-relations through the atan2 contract, sigma-apr scaling) is a solver-checked identity against the exact oracle',
    'bounds': NET_BOUNDS + '; plus networks with dof 0, 1, 2; both sigma-act settings; conf-pr 0.90/0.95; second sigma-apr 2.5', 'outside': NET_OUT + '; accuracy of Normal/Student (uninterpreted in the symbolic build, C17); printed fields; order a>=b of ellipse axes when m0 is symbolic',
    'assumptions': NET_ASSUME + ['GNU_gama::Normal/Student/Chi_square are uninterpreted functions in the symbolic build (symx/statan_stub.cpp)']},
- 'C05': {'e1': [{'harness': 'lin', 'entry_points': ['LocalLinearization::direction/distance/angle/azimuth/s_distance/z_angle/h_diff/x/y/z/xdiff/ydiff/zdiff', 'bearing_distance', 'Observation::accept', 'StandPoint orientation/index'], 'budget_s': {'quick': 400, 'thorough': 1500}}],
-   'must_reach': ['lin-distance', 'lin-direction', 'lin-azimuth', 'lin-angle', 'lin-sdistance', 'lin-zangle', 'lin-linear'],
+ 'C05': {'e1': [{'harness': 'lin', 'entry_points': ['LocalLinearization::direction/distance/angle/azimuth/s_distance/z_angle/h_diff/x/y/z/xdiff/ydiff/zdiff', 'bearing_distance', 'Observation::accept', 'StandPoint orientation/index'], 'budget_s': {'quick': 400, 'thorough': 1500}},
+          {'harness': 'net', 'entry_points': ['GKFparser (axes-xy, angles)', 'LocalNetwork::remove_inconsistency / change_y_signs_for_inconsistent_system_', 'Acord2 (orientations)', 'LocalNetwork::project_equations(A,b,w)', 'PointData::xNorthAngle']}],
+   'must_reach': ['lin-distance', 'lin-direction', 'lin-azimuth', 'lin-angle', 'lin-sdistance', 'lin-zangle', 'lin-linear', 'net-c05'],
    'technique': 'symbolic execution of LocalLinearization on real point/observation/cluster objects with fully symbolic coordinates, observed value and orientation; coefficients compared with the Jacobian stated from the defining relation as nonlinear real-arithmetic queries (z3 nlsat), wrap-around loops explored by solver-decided forks',
    'bounds': 'every observation type; every fixed/free(/constrained) mix of the 2-3 points (quick: constrained only on the diagonal; slope types 7 of 16 mixes); coordinates in [-1e4,1e4] (heights [-1e3,1e3]) with points at least 0.1 m apart; observed angle and orientation in [0,2pi) (<= 3 iterations of each normalisation loop); '
-             'atan2/sin/cos through their contract (pi := M_PI literal), sqrt exact',
-   'outside': 'acos inside z_angle\'s right-hand side (uninterpreted: only its argument and unit factor are checked); rounding of the unit constants 10*R2G and R2CC (taken as written in the source, value checked to 1e-9); points closer than 0.1 m',
+             'atan2/sin/cos through their contract (pi := M_PI literal), sqrt exact; network level: one 6-point 3D network with all 13 observation types in all 8 axes orientations x 2 angle senses (thorough: 3 status variants), '
+             'equations of project_equations(A,b,w) equal entry by entry those of the same network written in the reference frame (ne, left-handed; every y mirrored iff the combination is inconsistent; azimuth reduced by the azimuth of the x axis): concrete geometry, symbolic length-like observed values',
+   'outside': 'network level with symbolic coordinates (the gross-error test on sqrt/acos terms gave no solver verdict in 10 min); acos inside z_angle\'s right-hand side (uninterpreted: only its argument and unit factor are checked); rounding of the unit constants 10*R2G and R2CC (taken as written in the source, value checked to 1e-9); points closer than 0.1 m',
    'assumptions': ['exact real arithmetic', 'libm contract for atan2/sin/cos/sqrt', 'closed forms of d(bearing)/d(coordinate) and d(zenith)/d(coordinate) written in the harness are the oracle (trusted)', 'z3 4.8.12 nlsat']},
  'C11': {'e2': [K_INTFLOAT],
    'technique': 'bounded model checking (CBMC) of the compiled leaf recognisers IsFloat/IsInteger/TrimWhiteSpaces/SkipWhiteSpaces on every byte buffer up to the bound: no access outside [b,e), termination, acceptance equals a reference grammar',
@@ -115,7 +117,7 @@ PROPS = {
    'outside': 'memory safety of the sparse kernels under CBMC: attempted (ir2c/kernels/k_sparse*): 1x1 verifies in 12 s, 2x2 needs ~8 min -> not part of the registered check; connectivity/ordering are integer-only and therefore enumerated, not solver-quantified; graphs with more than 6 nodes',
    'assumptions': ADJ_ASSUME},
  'C18': {'e1': [{'harness': 'geo', 'entry_points': ['GNU_gama::gon2deg', 'dms2rad', 'rad2dms', 'GNU_gama::local::bearing_distance']}], 'e2': [K_INTFLOAT],
-   'must_reach': ['geo-gon2deg', 'geo-dms', 'geo-bearing', 'geo-cut'],
+   'must_reach': ['geo-gon2deg', 'geo-deg2gon', 'geo-dms', 'geo-bearing', 'geo-cut'],
    'technique': 'symbolic execution of the angle conversions with the angle symbolic inside windows around every field boundary (integer truncations forked by the solver; the formatted seconds field travels as a term through the real iostream formatting) and of bearing_distance on symbolic point pairs (atan2 contract); CBMC on the literal recognisers',
    'bounds': 'gon2deg: 6 windows (0, seconds carry, minute carry, 100 gon, negative, generic) x sign modes 0..3 x precision 1..2 (1..4 thorough); dms2rad/rad2dms: 5 windows, tolerance 1e-9 for the round trip; bearing_distance: all point pairs with coordinates in [-1e5,1e5] at least 0.1 m apart plus the 1e-6 cut; recognisers: all byte strings <= 6 (8) bytes',
    'outside': 'Ellipsoid::blh2xyz/xyz2blh round trip and its documented bound (Bowring formula with sin/cos/atan of non-special arguments: transcendental, L4), the ellipsoid table, deg2gon (parses with istringstream: text, L5), latlong string formatting',
